@@ -9,7 +9,9 @@ IMPORTS = ["SodiumModel.Properties.C17"] if THEOREMS else ["SodiumModel.Model.Al
 RULE = ("layout: every size 0..3 pages+1 (logged mmap/mprotect/mlock/munmap arguments relative to the mapping base, user pointer offset, 0xdb fill, "
         "canary constancy, free's calls) and sizes near SIZE_MAX; allocarray at overflow boundaries; fork probes: first byte past the end (must fault), "
         "each of the 16 canary bytes altered then free (must be killed), last in-bounds byte, all protection histories of length <= 4 (120) followed by a "
-        "read probe, a write probe and a free, for sizes around page multiples")
+        "read probe, a write probe and a free, for sizes around page multiples; after every history of length <= 3 a read and a write of the first byte past "
+        "the end and a read of the guard page before the data (must fault) for the sizes where canary and data straddle a page boundary; the mprotect "
+        "calls issued by the protection API (offset, length, protection relative to the mapping base) for every size 0..3 pages")
 ASSUMPTIONS = ["page size 4096 in the driver (the theorems hold for every power of two 2^5..2^30)",
                "mlock/munlock results are forced to 0 by the wrapper so RLIMIT_MEMLOCK does not influence the comparison (sodium_malloc ignores mlock failure anyway)",
                "that the kernel faults on PROT_NONE / that raise() terminates the process is observed (fork probes), not proved"]
@@ -55,4 +57,20 @@ def gen(ctx, tier, rng):
                 if s == 0 and pr in "RW":
                     continue
                 L.append("alloc.probe %d prot %s%s" % (s, h, pr))
+    # the guard pages must stay inaccessible after ANY protection history ("any access past the end faults at once" is not limited to fresh
+    # allocations): read / write of the first byte past the end and read of the guard page before the data, after histories of length <= 3,
+    # for the sizes at which the canary and the user data fall on different sides of a page boundary
+    gsizes = sorted(set([0, 1, 100, PG - 17, PG - 16, PG - 15, PG - 8, PG - 1, PG, PG + 1, 2 * PG - 15, 2 * PG - 1, 2 * PG, 3 * PG - 7, 3 * PG]))
+    ghist = [h for h in hist if len(h) <= (4 if full else 3)]
+    for s in (gsizes if not full else sorted(set(sizes) | set(gsizes))):
+        for h in ghist:
+            for pr in "PQG":
+                L.append("alloc.probe %d prot %s%s" % (s, h, pr))
+    # and the system calls the protection API issues, for every size 0..3 pages (one history each, rotating) and all short histories at the boundary sizes
+    short = [h for h in hist if 1 <= len(h) <= 2]
+    for s in range(0, 3 * PG + 2):
+        L.append("alloc.protlog %d %s" % (s, short[s % len(short)]))
+    for s in gsizes:
+        for h in short:
+            L.append("alloc.protlog %d %s" % (s, h))
     return L
